@@ -30,15 +30,16 @@ def tangent_sampler(g, scale_rot=None):
     return s
 
 
-def regimes(g, a, p):
+def regimes(g, a, p, assumptions=()):
     """per leaf block: ('series', T) if the path condition bounds theta^2 by T, else ('closed', None)"""
+    pc = p if isinstance(p, list) else p.pc
     out = {}
     for bi, (blk, ro, do, mo) in enumerate(O.group_blocks(g)):
         if not blk.rot:
             out[bi] = ("closed", None)
             continue
         ang = O.Angle([a[do + i] for i in blk.rot])
-        T_ = solver.sup_threshold(p.pc, ang.t, THRESH)
+        T_ = solver.sup_threshold(pc, ang.t, THRESH, assumptions)
         out[bi] = ("series", T_) if T_ is not None else ("closed", None)
     return out
 
@@ -101,6 +102,172 @@ def job_exp(g, tier):
     return res
 
 
+def polar(num, den, g, a, reg):
+    """a_i = theta*u_i for the rotation components of 3-dim rotation blocks in the series regime (|u_i|<=1, theta the
+    block's sqrt atom): lets the monomial-content cancellation remove common theta powers; theta^2 rule NOT applied"""
+    sub = {}
+    for bi, (blk, ro, do, mo) in enumerate(O.group_blocks(g)):
+        if reg[bi][0] != "series" or len(blk.rot) != 3:
+            continue
+        ang = O.Angle([a[do + i] for i in blk.rot])
+        th = T.nf(ang.theta)[0]
+        for i in blk.rot:
+            ai = G.atom_of(a[do + i])
+            ui = T.nf(T.Sym("u!%d" % (do + i)))[0]
+            sub[ai] = T.p_mul(th, ui)
+    if sub:
+        num = T.p_subst(num, sub)
+        den = T.p_subst(den, sub)
+        urules = []
+        for bi, (blk, ro, do, mo) in enumerate(O.group_blocks(g)):
+            if reg[bi][0] == "series" and len(blk.rot) == 3:
+                urules.append(G.unit_rule([T.Sym("u!%d" % (do + i)) for i in blk.rot]))
+        num = T.reduce_poly(num, None, urules)
+        den = T.reduce_poly(den, None, urules)
+    num, den = T.cancel_content(num, den)
+    return T.rf_norm(num, den)
+
+
+def series_residual(term, g, a, reg):
+    num, den = T.nf(term)
+    num, _ = solver.enclose_trig(num)
+    den, _ = solver.enclose_trig(den)
+    num, den = polar(num, den, g, a, reg)
+    return num, den
+
+
+def series_box(num, den, g, reg, L):
+    small = {}
+    th_small = {}
+    for bi, (blk, ro, do, mo) in enumerate(O.group_blocks(g)):
+        if reg[bi][0] == "series":
+            amax = Fraction(math.isqrt(int(reg[bi][1] * 10**16)) + 1, 10**8)
+            for i in blk.rot:
+                small["a%d" % (do + i)] = amax
+    rotnames = {"a%d" % (do + i) for blk, ro, do, mo in O.group_blocks(g) for i in blk.rot}
+    pre = {}
+    for bi, (blk, ro, do, mo) in enumerate(O.group_blocks(g)):
+        if reg[bi][0] == "series" and len(blk.rot) == 3:
+            th = T.nf(O.Angle([T.Sym("a%d" % (do + i)) for i in blk.rot]).theta)[0]
+            (m, _), = th.items()
+            pre[m[0][0]] = (Fraction(0), Fraction(math.isqrt(int(reg[bi][1] * 10**16)) + 1, 10**8))
+
+    def sym_box(nm):
+        if nm.startswith("xi") or nm.startswith("xe!") or nm.startswith("u!"):
+            return (Fraction(-1), Fraction(1))
+        if nm in small:
+            return (-small[nm], small[nm])
+        if nm in rotnames:
+            return (Fraction(-4), Fraction(4))
+        return (Fraction(-L), Fraction(L))
+    return solver.box_for([num, den], sym_box, pre)
+
+
+def series_handler(g, a, blocks, bi, Tmax, oracle_entry, xi, res):
+    blk, ro, do, mo = blocks[bi]
+    rot_names = {"a%d" % (do + i) for i in blk.rot}
+    amax = Fraction(math.isqrt(int(Tmax * 10**16)) + 1, 10**8)
+
+    def hd(name, lhs, rhs_ignored, p):
+        reg = {k: ("closed", None) for k in range(len(blocks))}
+        reg[bi] = ("series", Tmax)
+        num, den = series_residual(T.Sub(lhs, oracle_entry), g, a, reg)
+        worst = None
+        for L in LBOX:
+            box = series_box(num, den, g, reg, L)
+            if box is None:
+                return solver.Verdict("undecided", "series path with an atom that cannot be enclosed")
+            v = solver.check_bound(num, box, Fraction(TOL) * L, den_poly=None if T.p_is_const(den) else den, max_split=12)
+            res.bounds.add("series-path boxes: |rot a| <= sqrt(T) (T from the path condition, here %s), translations <= %s with tol %g*%s" % (Tmax, LBOX, TOL, LBOX))
+            if v.status != "holds":
+                return v
+            worst = v
+        return worst
+    return hd
+
+    check.check_wrapper(res, h, t + "_exp", a, g.rep, None, key, obligations=obl, per_path=per_path, tol=TOL, pid=PID,
+                        sampler=tangent_sampler(g), timeout_ms=10000 if tier == "quick" else 60000, nvalidate=14)
+    # spectrum obligation of the Hermite oracle: X^3 (X^2 + theta^2) = 0 for X = hat(a) of every leaf group
+    for bi, (blk, ro, do, mo) in enumerate(blocks):
+        if not blk.rot or blk.name == "C1":
+            continue
+        ab = a[do:do + blk.dof]
+        X = blk.hat(ab)
+        ang = O.Angle([ab[i] for i in blk.rot])
+        Rm = O.minpoly_residual(X, ang.t, 3)
+        worst = None
+        for row in Rm:
+            for e in row:
+                v = solver.check_identity(T.nf(e))
+                if v.status != "holds":
+                    worst = v
+        res.add("%s/hermite-spectrum/block%d" % (key, bi), worst or solver.Verdict("holds", "z3 (all %d entries)" % (len(Rm) ** 2)))
+    res.axioms.add("exp oracle: expm(X) = I + X + X^2/2 + g3(th) X^3 + g4(th) X^4, valid because X^3(X^2+th^2)=0 is discharged per group")
+    res.axioms.add("series paths: g_m(th) = sum_{k<3} (-1)^k th^2k/(2k+m)! + xi th^6/(6+m)!, |xi|<=1 (alternating series, th^2<=1)")
+    return res
+
+
+def polar(num, den, g, a, reg):
+    """a_i = theta*u_i for the rotation components of 3-dim rotation blocks in the series regime (|u_i|<=1, theta the
+    block's sqrt atom): lets the monomial-content cancellation remove common theta powers; theta^2 rule NOT applied"""
+    sub = {}
+    for bi, (blk, ro, do, mo) in enumerate(O.group_blocks(g)):
+        if reg[bi][0] != "series" or len(blk.rot) != 3:
+            continue
+        ang = O.Angle([a[do + i] for i in blk.rot])
+        th = T.nf(ang.theta)[0]
+        for i in blk.rot:
+            ai = G.atom_of(a[do + i])
+            ui = T.nf(T.Sym("u!%d" % (do + i)))[0]
+            sub[ai] = T.p_mul(th, ui)
+    if sub:
+        num = T.p_subst(num, sub)
+        den = T.p_subst(den, sub)
+        urules = []
+        for bi, (blk, ro, do, mo) in enumerate(O.group_blocks(g)):
+            if reg[bi][0] == "series" and len(blk.rot) == 3:
+                urules.append(G.unit_rule([T.Sym("u!%d" % (do + i)) for i in blk.rot]))
+        num = T.reduce_poly(num, None, urules)
+        den = T.reduce_poly(den, None, urules)
+    num, den = T.cancel_content(num, den)
+    return T.rf_norm(num, den)
+
+
+def series_residual(term, g, a, reg):
+    num, den = T.nf(term)
+    num, _ = solver.enclose_trig(num)
+    den, _ = solver.enclose_trig(den)
+    num, den = polar(num, den, g, a, reg)
+    return num, den
+
+
+def series_box(num, den, g, reg, L):
+    small = {}
+    th_small = {}
+    for bi, (blk, ro, do, mo) in enumerate(O.group_blocks(g)):
+        if reg[bi][0] == "series":
+            amax = Fraction(math.isqrt(int(reg[bi][1] * 10**16)) + 1, 10**8)
+            for i in blk.rot:
+                small["a%d" % (do + i)] = amax
+    rotnames = {"a%d" % (do + i) for blk, ro, do, mo in O.group_blocks(g) for i in blk.rot}
+    pre = {}
+    for bi, (blk, ro, do, mo) in enumerate(O.group_blocks(g)):
+        if reg[bi][0] == "series" and len(blk.rot) == 3:
+            th = T.nf(O.Angle([T.Sym("a%d" % (do + i)) for i in blk.rot]).theta)[0]
+            (m, _), = th.items()
+            pre[m[0][0]] = (Fraction(0), Fraction(math.isqrt(int(reg[bi][1] * 10**16)) + 1, 10**8))
+
+    def sym_box(nm):
+        if nm.startswith("xi") or nm.startswith("xe!") or nm.startswith("u!"):
+            return (Fraction(-1), Fraction(1))
+        if nm in small:
+            return (-small[nm], small[nm])
+        if nm in rotnames:
+            return (Fraction(-4), Fraction(4))
+        return (Fraction(-L), Fraction(L))
+    return solver.box_for([num, den], sym_box, pre)
+
+
 def series_handler(g, a, blocks, bi, Tmax, oracle_entry, xi, res):
     blk, ro, do, mo = blocks[bi]
     rot_names = {"a%d" % (do + i) for i in blk.rot}
@@ -135,6 +302,311 @@ def series_handler(g, a, blocks, bi, Tmax, oracle_entry, xi, res):
     return hd
 
 
+PI2_LO = Fraction(98696, 10000)  # < pi^2
+
+
+def declare_small_angle(g, a):
+    """axiom instances for tangents with rotation norm < pi: for every leaf block, u = theta/2 in [0, pi/2):
+    sin u >= 0, cos u >= 0, u principal; (1-dim rotations: Omega in (-pi, pi) principal, cos(Omega/2) >= 0)"""
+    asm = []
+    for blk, ro, do, mo in O.group_blocks(g):
+        if not blk.rot:
+            continue
+        w = [a[do + i] for i in blk.rot]
+        ang = O.Angle(w)
+        asm.append((Cond("cmp", ang.t, T.Const(PI2_LO), "olt"), True))
+        half = T.Mul(ang.theta, T.Const(Fraction(1, 2)))
+        alt = T.Div(ang.theta, T.Const(2))
+        for u in (half, ang.theta):
+            T.CTX.principal.add(T.rf_key(T.nf(u)))
+        ch = T.Fn("cos", half)
+        asm.append((Cond("cmp", ch, T.Const(0), "oge"), True))
+        if len(w) == 3:
+            sh = T.Fn("sin", half)
+            asm.append((Cond("cmp", sh, T.Const(0), "oge"), True))
+            # concavity of sin on [0, pi/2]:  sin u >= (2/pi) u > (7/11) u
+            asm.append((Cond("cmp", sh, T.Mul(T.Const(Fraction(7, 11)), half), "oge"), True))
+            (m, _), = T.nf(sh)[0].items()
+            T.CTX.nonneg.add(m[0][0])
+    return asm
+
+
+def job_logexp(g, tier):
+    """log(exp(a)) = a for rotation norm < pi: the real log is run on the symbolic output of the real exp"""
+    T.reset_terms()
+    res = check.Result()
+    h = grouptu.harness(g)
+    t = grouptu.tag(g)
+    key = "%s/log-exp" % t
+    a = G.syms("a", g.dof)
+    asm = declare_small_angle(g, a)
+    from symx import engine
+    ex = engine.Explorer(h.mod, assumptions=asm)
+    p1s = ex.explore(t + "_exp", a, g.rep)
+    res.note_paths(p1s, ex)
+    res.functions.update([t + "_exp", t + "_log"])
+    n_ok = 0
+    for i1, p1 in enumerate(p1s):
+        if p1.status != "ok":
+            res.notes.append("%s exp path %d: %s %s" % (key, i1, p1.status, p1.reason))
+            continue
+        ex2 = engine.Explorer(h.mod, assumptions=asm + p1.pc)
+        p2s = ex2.explore(t + "_log", p1.outs, g.dof)
+        res.note_paths(p2s, ex2)
+        for i2, p2 in enumerate(p2s):
+            pk = "%s/path%d.%d" % (key, i1, i2)
+            if p2.status != "ok":
+                res.add_raw(pk, "undecided", "log path %s: %s" % (p2.status, p2.reason))
+                continue
+            n_ok += 1
+            reg = regimes(g, a, p1.pc + p2.pc, asm)
+            series = any(r[0] == "series" for r in reg.values())
+            for k in range(g.dof):
+                try:
+                    if series:
+                        with T.time_budget(20 if tier == "quick" else 240):
+                            v = series_roundtrip(T.Sub(p2.outs[k], a[k]), g, a, reg, res)
+                    else:
+                        with T.time_budget(20 if tier == "quick" else 240):
+                            v = solver.check_identity(T.nf(T.Sub(p2.outs[k], a[k])), pc=p1.pc + p2.pc, assumptions=asm)
+                except T.PolyTooBig:
+                    v = solver.Verdict("undecided", "normal form too large")
+                if v.status == "violated":
+                    w = roundtrip_witness(h, t, g, "log-exp", k, tangent_sampler(g))
+                    if w:
+                        res.add("%s/a%d" % (pk, k), v)
+                        res.violations.append({"key": "%s/a%d" % (key, k), "what": "log(exp(a)) != a: " + w["what"], "replay": w})
+                        continue
+                    v.status = "undecided"
+                    v.how += " ; not reproduced natively"
+                res.add("%s/a%d" % (pk, k), v)
+    if not n_ok:
+        res.errors.append(key + ": vacuous")
+    res.axioms.update(set(T.CTX.log))
+    res.axioms.add("rotation norm < pi: u=theta/2 in [0,pi/2) => sin u >= 0, cos u >= 0, atan2(sin u, cos u) = u")
+    return res
+
+
+def series_roundtrip(term, g, a, reg, res):
+    """bound |term| <= TOL on the series box of the tangent a (all blocks in the series regime use their T)"""
+    num, den = series_residual(term, g, a, reg)
+    worst = None
+    for L in LBOX:
+        box = series_box(num, den, g, reg, L)
+        if box is None:
+            return solver.Verdict("undecided", "series round trip with an atom that cannot be enclosed")
+        v = solver.check_bound(num, box, Fraction(TOL) * L, den_poly=None if T.p_is_const(den) else den, max_split=12)
+        if v.status != "holds":
+            v.status = "undecided"
+            return v
+        worst = v
+    return worst
+
+
+def roundtrip_witness(h, t, g, kind, k, sampler, ntry=60):
+    """native replay of a round trip against itself: a -> exp -> log (or g -> log -> exp)"""
+    mp = check.mpmath()
+    for j in range(ntry):
+        if kind == "log-exp":
+            a = sampler(j)
+            ok = True
+            for blk, ro, do, mo in O.group_blocks(g):
+                if blk.rot and math.sqrt(sum(a[do + i] ** 2 for i in blk.rot)) >= math.pi - 1e-5:
+                    ok = False
+            if not ok:
+                continue
+            gg = h.native(t + "_exp", a, g.rep)
+            b = h.native(t + "_log", gg, g.dof)
+            sc = max([1.0] + [abs(x) for x in a])
+            e = abs(b[k] - a[k]) / sc
+            if not (e <= TOL * 10):
+                return {"property": PID, "key": "%s/log-exp/a%d" % (t, k), "tu_name": h.name, "tu_text": h.text, "fn": t + "_exp", "inputs": a,
+                        "nout": g.rep, "native": gg, "what": "a=%r gives log(exp(a))[%d]=%r (err %.3g)" % (a, k, b[k], e), "err": e, "tol": TOL * 10}
+        else:
+            gg = g.random_element(random.Random(j), 10.0)
+            a = h.native(t + "_log", gg, g.dof)
+            g2 = h.native(t + "_exp", a, g.rep)
+            sc = max([1.0] + [abs(x) for x in gg])
+            e = abs(g2[k] - gg[k]) / sc
+            if not (e <= TOL * 10):
+                return {"property": PID, "key": "%s/exp-log/g%d" % (t, k), "tu_name": h.name, "tu_text": h.text, "fn": t + "_log", "inputs": gg,
+                        "nout": g.dof, "native": a, "what": "g=%r gives exp(log(g))[%d]=%r (err %.3g)" % (gg, k, g2[k], e), "err": e, "tol": TOL * 10}
+    return None
+
+
+def element_terms(g):
+    """symbolic canonical group element: unit quaternions as (x,y,z,sqrt(1-x^2-y^2-z^2)) (q_w >= 0 built in), unit complex
+    numbers as (sin phi, cos phi) with phi in (-pi, pi] principal, everything else plain symbols.
+    returns (terms, free symbol names, assumptions)"""
+    gs = [None] * g.rep
+    asm = []
+    for blk, ro, do, mo in O.group_blocks(g):
+        unit = set()
+        for sl in blk.unit_slices():
+            idx = [ro + i for i in sl]
+            unit.update(idx)
+            if len(idx) == 4:
+                v = [T.Sym("g%d" % i) for i in idx[:3]]
+                for i, x in zip(idx[:3], v):
+                    gs[i] = x
+                gs[idx[3]] = T.Fn("sqrt", T.Sub(T.Const(1), G.dot(v, v)))
+                asm.append((Cond("cmp", G.dot(v, v), T.Const(1), "ole"), True))
+            else:
+                phi = T.Sym("phi%d" % idx[0])
+                T.CTX.principal.add(T.rf_key(T.nf(phi)))
+                gs[idx[0]] = T.Fn("sin", phi)
+                gs[idx[1]] = T.Fn("cos", phi)
+                asm.append((Cond("cmp", phi, T.Sym("pi!"), "ole"), True))
+                asm.append((Cond("cmp", phi, T.Neg(T.Sym("pi!")), "ogt"), True))
+        for i in range(ro, ro + blk.rep):
+            if gs[i] is None:
+                gs[i] = T.Sym("g%d" % i)
+        if blk.name == "C1":
+            asm.append((Cond("cmp", T.Add(T.Mul(gs[ro], gs[ro]), T.Mul(gs[ro + 1], gs[ro + 1])), T.Const(0), "ogt"), True))
+    return gs, asm
+
+
+def job_explog(g, tier):
+    """exp(log(g)) = g and |log g|_rot <= pi for canonical elements: the real exp is run on the symbolic output of the real log"""
+    T.reset_terms()
+    res = check.Result()
+    h = grouptu.harness(g)
+    t = grouptu.tag(g)
+    key = "%s/exp-log" % t
+    gs, asm = element_terms(g)
+    pi_t = T.Sym("pi!")
+    asm_pi = [(Cond("cmp", pi_t, T.Const(solver.PI_LO), "ogt"), True), (Cond("cmp", pi_t, T.Const(solver.PI_HI), "olt"), True)]
+    asm = asm + asm_pi
+    from symx import engine
+    ex = engine.Explorer(h.mod, assumptions=asm)
+    p1s = ex.explore(t + "_log", gs, g.dof)
+    res.note_paths(p1s, ex)
+    res.functions.update([t + "_exp", t + "_log"])
+    n_ok = 0
+    for i1, p1 in enumerate(p1s):
+        if p1.status != "ok":
+            res.notes.append("%s log path %d: %s %s" % (key, i1, p1.status, p1.reason))
+            continue
+        # principal branch: rotation part of the result has norm <= pi
+        for bi, (blk, ro, do, mo) in enumerate(O.group_blocks(g)):
+            if not blk.rot:
+                continue
+            w = [p1.outs[do + i] for i in blk.rot]
+            n2 = G.dot(w, w)
+            v = pi_query(asm + p1.pc, Cond("cmp", n2, T.Mul(pi_t, pi_t), "ogt"))
+            res.add_raw("%s/path%d/principal-block%d" % (key, i1, bi), v[0], v[1], v[2])
+        ex2 = engine.Explorer(h.mod, assumptions=asm + p1.pc)
+        p2s = ex2.explore(t + "_exp", p1.outs, g.rep)
+        res.note_paths(p2s, ex2)
+        for i2, p2 in enumerate(p2s):
+            pk = "%s/path%d.%d" % (key, i1, i2)
+            if p2.status != "ok":
+                res.add_raw(pk, "undecided", "exp path %s: %s" % (p2.status, p2.reason))
+                continue
+            n_ok += 1
+            small = small_elements(g, gs, p1.pc + p2.pc, asm)
+            for k in range(g.rep):
+                try:
+                    with T.time_budget(20 if tier == "quick" else 240):
+                        if small:
+                            v = series_element_bound(T.Sub(p2.outs[k], gs[k]), g, small)
+                        else:
+                            v = solver.check_identity(T.nf(T.Sub(p2.outs[k], gs[k])), pc=p1.pc + p2.pc, assumptions=asm)
+                except T.PolyTooBig:
+                    v = solver.Verdict("undecided", "normal form too large")
+                if v.status == "violated":
+                    w = roundtrip_witness(h, t, g, "exp-log", k, None)
+                    if w:
+                        res.add("%s/g%d" % (pk, k), v)
+                        res.violations.append({"key": "%s/g%d" % (key, k), "what": "exp(log(g)) != g: " + w["what"], "replay": w})
+                        continue
+                    v.status = "undecided"
+                    v.how += " ; not reproduced natively"
+                res.add("%s/g%d" % (pk, k), v)
+    if not n_ok:
+        res.errors.append(key + ": vacuous")
+    res.axioms.update(set(T.CTX.log))
+    res.axioms.add("canonical elements: unit quaternion (x,y,z,sqrt(1-|v|^2)), unit complex (sin phi, cos phi), phi in (-pi,pi]")
+    return res
+
+
+def pi_query(conds, goal_neg):
+    """unsat of conds & goal_neg with the symbol pi! tied to the solver's pi enclosure"""
+    z = solver.Z()
+    fs = []
+    atoms = set()
+    for c, pol in list(conds) + [(goal_neg, True)]:
+        f, side = z.cond(c, pol)
+        fs.append(f)
+        fs += side
+        solver.cond_atoms(c, atoms)
+    fs += solver.atom_axioms(z, atoms)
+    for i in atoms:
+        if T.ATOM_LIST[i] == ("sym", "pi!"):
+            fs.append(z.atom(i) == z.pi)
+    rs, m, dt = solver.check(fs, 10000)
+    return ("holds" if rs == "unsat" else "undecided", "z3 with atan2/pi range axioms (%s)" % rs, dt)
+
+
+def small_elements(g, gs, pc, asm):
+    """per block: bound T on the squared vector part (quaternion) / squared angle (complex) implied by the path condition"""
+    out = {}
+    for bi, (blk, ro, do, mo) in enumerate(O.group_blocks(g)):
+        for sl in blk.unit_slices():
+            idx = [ro + i for i in sl]
+            if len(idx) == 4:
+                v = [gs[i] for i in idx[:3]]
+                q = G.dot(v, v)
+            else:
+                phi = T.Sym("phi%d" % idx[0])
+                q = T.Mul(phi, phi)
+            T_ = solver.sup_threshold(pc, q, THRESH[:5], asm)
+            if T_ is not None:
+                out[bi] = (T_, idx)
+    return out
+
+
+def series_element_bound(term, g, small):
+    num, den = T.nf(term)
+    names = {}
+    for bi, (T_, idx) in small.items():
+        amax = Fraction(math.isqrt(int(T_ * 10**16)) + 1, 10**8)
+        if len(idx) == 4:
+            for i in idx[:3]:
+                names["g%d" % i] = amax
+        else:
+            names["phi%d" % idx[0]] = amax
+    worst = None
+    for L in LBOX:
+        def sym_box(nm):
+            if nm.startswith("x") and "!" in nm:
+                return (Fraction(-1), Fraction(1))
+            if nm in names:
+                return (-names[nm], names[nm])
+            if nm.startswith("phi"):
+                return (Fraction(-4), Fraction(4))
+            if nm == "pi!":
+                return (solver.PI_LO, solver.PI_HI)
+            return (Fraction(-L), Fraction(L))
+        n2, _ = solver.enclose_trig(num)
+        d2, _ = solver.enclose_trig(den)
+        rules = solver.sqrt_rules()
+        n2 = solver.reduce_poly(n2, {}, rules)
+        d2 = solver.reduce_poly(d2, {}, rules)
+        n2 = solver.enclose_sqrt_near1(n2, sym_box)
+        d2 = solver.enclose_sqrt_near1(d2, sym_box)
+        n2, d2 = T.cancel_content(n2, d2)
+        box = solver.box_for([n2, d2], sym_box)
+        if box is None:
+            return solver.Verdict("undecided", "series round trip with an atom that cannot be enclosed")
+        v = solver.check_bound(n2, box, Fraction(TOL) * L, den_poly=None if T.p_is_const(d2) else d2, max_split=12)
+        if v.status != "holds":
+            v.status = "undecided"
+            return v
+        worst = v
+    return worst
+
+
 def _compile(g):
     grouptu.harness(g)
     return check.Result()
@@ -144,8 +616,10 @@ def main(tier):
     run = check.Run(PID, tier)
     groups = list(G.BASIC.values()) + grouptu.bundle_shapes(tier)
     check.run_jobs([(_compile, (g,)) for g in groups])
-    jobs = [(job_exp, (g, tier)) for g in groups]
-    run.extend(check.run_jobs(jobs))
+    rt = groups if tier == "thorough" else [G.BASIC[n] for n in ("SO2", "SO3", "SE2", "C1", "SE3")]
+    jobs = [(job_exp, (g, tier)) for g in groups] + [(job_logexp, (g, tier)) for g in rt] + [(job_explog, (g, tier)) for g in rt]
+    run.bounds.append("log/exp round trips: " + ", ".join(g.name for g in rt))
+    run.extend(check.run_jobs(jobs, timeout=900 if tier == 'quick' else 3600))
     run.bounds += ["groups: " + ", ".join(g.name for g in groups), "closed-form paths: all tangent vectors (layer R identity)"]
     run.assumptions += ["layer R (exact real arithmetic); floating-point cancellation next to the switch is a layer-E question"]
     return run.finish()
